@@ -84,6 +84,9 @@ public:
 Socket::Private::Winsock Socket::Private::winsock;
 #endif
 
+// the system calls take the size as int (Windows) / the result has to fit into ssize: larger requests are clamped (short count)
+static inline int ioSize(usize size) {return size > 0x7fffffff ? 0x7fffffff : (int)size;}
+
 const int Socket::Private::typeMap[2] = {SOCK_STREAM, SOCK_DGRAM};
 const int Socket::Private::protocolMap[2] = {IPPROTO_TCP, IPPROTO_UDP};
 
@@ -432,7 +435,7 @@ bool Socket::getSockOpt(int level, int optname, void *optval, usize& optlen)
 
 ssize Socket::send(const byte* data, usize size)
 {
-  ssize r = ::send(s, (const char*)data, (int)size, MSG_NOSIGNAL);
+  ssize r = ::send(s, (const char*)data, ioSize(size), MSG_NOSIGNAL);
   if(r == SOCKET_ERROR)
   {
     if(ERRNO == EWOULDBLOCK 
@@ -456,7 +459,7 @@ ssize Socket::sendTo(const byte* data, usize size, uint32 ip, uint16 port)
   sin.sin_port = htons(port);
   sin.sin_addr.s_addr = htonl(ip);
 
-  ssize r = ::sendto(s, (const char*)data, (int)size, 0, (sockaddr*)&sin, sizeof(sin));
+  ssize r = ::sendto(s, (const char*)data, ioSize(size), 0, (sockaddr*)&sin, sizeof(sin));
   if(r == SOCKET_ERROR)
   {
     if(ERRNO == EWOULDBLOCK 
@@ -477,7 +480,7 @@ ssize Socket::recvFrom(byte* data, usize maxSize, uint32& ip, uint16& port)
   struct sockaddr_in sin;
   socklen_t sinSize = sizeof(sin);
 
-  ssize r = ::recvfrom(s, (char*)data, (int)maxSize, 0, (sockaddr*)&sin, &sinSize);
+  ssize r = ::recvfrom(s, (char*)data, ioSize(maxSize), 0, (sockaddr*)&sin, &sinSize);
   if(r == SOCKET_ERROR)
   {
     if(ERRNO == EWOULDBLOCK 
@@ -497,7 +500,7 @@ ssize Socket::recvFrom(byte* data, usize maxSize, uint32& ip, uint16& port)
 
 ssize Socket::recv(byte* data, usize maxSize, usize minSize)
 {
-  ssize r = ::recv(s, (char*)data, (int)maxSize, 0);
+  ssize r = ::recv(s, (char*)data, ioSize(maxSize), 0);
   switch(r)
   {
   case SOCKET_ERROR:
@@ -520,7 +523,7 @@ ssize Socket::recv(byte* data, usize maxSize, usize minSize)
   usize received = (usize)r;
   for(;;)
   {
-    r = ::recv(s, (char*)data + received, (int)(maxSize - received), 0);
+    r = ::recv(s, (char*)data + received, ioSize(maxSize - received), 0);
     switch(r)
     {
     case SOCKET_ERROR:
